@@ -476,7 +476,7 @@ pub open spec fn pubstuff_entry_at<R: Reader<Offset = usize>, E: PubStuffEntry<R
     &&& e.v_die_offset() == b0.u(0, ws) && e.v_die_offset() != 0
     &&& e.v_unit_header_offset() == h.v_unit_offset()
     &&& window(b0, e.v_name(), ws as nat, n)
-    &&& b0.at(ws + n) == 0 && (forall|j: int| 0 <= j < n ==> b0.at(ws + j) != 0)
+    &&& b0.at(ws + n) == 0 && (forall|j: int| ws <= j < ws + n ==> #[trigger] b0.at(j) != 0)
     &&& adv(b0, b1, (ws + n + 1) as nat)
 }
 '''
@@ -523,6 +523,169 @@ use crate::vspec::*;''')
     it.insert_after('return Ok(Some(entry))', ' }')
     sk.add('read::lookup', it)
 
+    # ---- PubStuff: the .debug_pubnames / .debug_pubtypes instance of LookupParser
+    sk.add('read::lookup', lk.item(r'^pub struct PubStuffHeader<T = usize>', label='PubStuffHeader').clean())
+    pe = lk.item(r'^pub trait PubStuffEntry<R: Reader>', label='PubStuffEntry')
+    # R-SIZED: a contract that names the `-> Self` result needs `Self: Sized` (every implementor is a struct)
+    pe.custom('R-SIZED', 'pub trait PubStuffEntry<R: Reader> {', 'pub trait PubStuffEntry<R: Reader>: Sized {')
+    pe.clean()
+    pe.insert_members(PUBSTUFF_ENTRY_GHOST)
+    pe.splice('new', ret='res', ensures=[
+        '[C17:pub-entry-new] res.v_die_offset() == die_offset.0.as_nat() && res.v_name() == name.rv() && res.v_unit_header_offset() == unit_header_offset.0.as_nat()'])
+    sk.add('read::lookup', pe)
+    sk.add('read::lookup', PUBSTUFF_SPEC, label='pubstuff_spec')
+    sk.add('read::lookup', lk.item(r'^pub struct PubStuffParser<R, Entry>', label='PubStuffParser').clean(rejrec=['R', 'Entry']))
+    pp = lk.item(r'^impl<R, Entry> LookupParser<R> for PubStuffParser<R, Entry>', label='PubStuffParser')
+    ctorfn(pp, 'DebugInfoOffset', 'usize', 'DebugInfoOffset<usize>')
+    pp.clean().own(OWN)
+    pp.insert_members('''    open spec fn header_at(b0: RView, set: RView, header: Self::Header, b1: RView) -> bool { pubstuff_header_at(b0, set, header, b1) }
+    open spec fn entry_at(b0: RView, header: Self::Header, entry: Self::Entry, b1: RView) -> bool { pubstuff_entry_at::<R, Entry>(b0, header, entry, b1) }''')
+    # (contracts are inherited from trait LookupParser: [C17:lookup-header], [C17:lookup-entry], progress, frame;
+    #  the clause below adds what the trait cannot say: a zero offset ends the set and empties its input)
+    pp.splice('parse_entry', ret='res', ensures=[
+        '[C17:pub-end-of-set] res matches Ok(None) ==> old(input).rv().u(0, word_size(header.v_format()) as int) == 0 && final(input).rv().len == 0',
+        '[C17:pub-end-of-set] res is Ok && old(input).rv().u(0, word_size(header.v_format()) as int) == 0 ==> res matches Ok(None)'],
+        before=[('let name = input.read_null_terminated_slice()?;', 'let ghost mid = input.rv();')],
+        after=[('let name = input.read_null_terminated_slice()?;', 'proof { let ws = word_size(header.v_format()) as int; let n = name.rv().len as int; '
+                'assert forall|j: int| ws <= j < ws + n implies #[trigger] old(input).rv().at(j) != 0 by { assert(mid.at(j - ws) != 0); } }')])
+    sk.add('read::lookup', pp)
+
+    for stem, Ty in [('pubnames', 'PubNames'), ('pubtypes', 'PubTypes')]:
+        src = Source(f'read/{stem}.rs', ctx)
+        m = f'read::{stem}'
+        sk.mods['read']['uses'] += f'\npub use self::{stem}::*;'
+        sk.module(m, '''use crate::common::DebugInfoOffset;
+use crate::read::lookup::{LookupEntryIter, LookupParser, PubStuffEntry, PubStuffParser, pubstuff_entry_at};
+use crate::read::{Reader, Result, UnitOffset};
+use crate::vspec::*;''')
+        sk.add(m, src.item(rf'^pub struct {Ty}Entry<R: Reader>', label=f'{Ty}Entry').clean(rejrec=['R']))
+        acc = src.item(rf'^impl<R: Reader> {Ty}Entry<R> \{{', label=f'{Ty}Entry').clean().own(OWN)
+        acc.splice('name', ret='res', ensures=['[C10:view] res.rv() == self.v_name()'])
+        acc.splice('unit_header_offset', ret='res', ensures=['res.0 as nat == self.v_unit_header_offset()'])
+        acc.splice('die_offset', ret='res', ensures=['res.0 as nat == self.v_die_offset()'])
+        sk.add(m, acc)
+        ne = src.item(rf'^impl<R: Reader> PubStuffEntry<R> for {Ty}Entry<R>', label=f'{Ty}Entry(PubStuffEntry)').clean().own(OWN)
+        ne.insert_members('''    closed spec fn v_die_offset(&self) -> nat { self.die_offset.0 as nat }
+    closed spec fn v_name(&self) -> RView { self.name.rv() }
+    closed spec fn v_unit_header_offset(&self) -> nat { self.unit_header_offset.0 as nat }''')
+        sk.add(m, ne)
+        sk.add(m, src.item(rf'^pub struct {Ty}EntryIter<R: Reader>', label=f'{Ty}EntryIter').clean(rejrec=['R']))
+        sk.add(m, f'''
+impl<R: Reader<Offset = usize>> {Ty}EntryIter<R> {{
+    pub closed spec fn inner(&self) -> LookupEntryIter<R, PubStuffParser<R, {Ty}Entry<R>>> {{ self.0 }}
+}}
+''', label=f'{Ty}EntryIter(ghost)')
+        ni = src.item(rf'^impl<R: Reader> {Ty}EntryIter<R> \{{', label=f'{Ty}EntryIter').clean().own(OWN)
+        O, F = 'old(self).inner()', 'final(self).inner()'
+        ni.splice('next', ret='res', ensures=[
+            f'[C01:iter-finish] {O}.cur_len() == 0 && {O}.v_remaining().len == 0 ==> res matches Ok(None)',
+            f'[C01:iter-err-empties] res is Err ==> {F}.cur_len() == 0 && {F}.v_remaining().len == 0',
+            f'[C01:iter-none-final] res matches Ok(None) ==> {F}.cur_len() == 0 && {F}.v_remaining().len == 0',
+            f'[C01:iter-progress] res matches Ok(Some(_)) ==> {F}.cur_len() + {F}.v_remaining().len < {O}.cur_len() + {O}.v_remaining().len '
+            f'|| ({F}.v_remaining().len < {O}.v_remaining().len)',
+            f'[C17:pub-next] res matches Ok(Some(e)) ==> {F}.has_cur() && exists|b0: RView| pubstuff_entry_at::<R, {Ty}Entry<R>>(b0, {F}.v_cur_header(), e, {F}.v_cur_input())',
+        ])
+        sk.add(m, ni)
+
+
+NAMES_GHOST = '''
+impl<R: Reader<Offset = usize>> NameIndex<R> {
+    pub closed spec fn v_bucket_count(&self) -> u32 { self.bucket_count }
+    pub closed spec fn v_name_count(&self) -> u32 { self.name_count }
+    pub closed spec fn v_buckets(&self) -> RView { self.bucket_data.rv() }
+    pub closed spec fn v_hashes(&self) -> RView { self.hash_table_data.rv() }
+    /// DWARF 5 6.1.1.4.5 / .6: bucket_count 4-byte buckets; name_count 4-byte hashes iff there is a hash table.
+    /// This is the size arithmetic of `NameIndex::new` (not in this batch: assumed where required)
+    pub open spec fn wf(&self) -> bool {
+        self.v_buckets().len == 4 * self.v_bucket_count() && self.v_hashes().len == (if self.v_bucket_count() == 0 { 0 } else { 4 * self.v_name_count() })
+    }
+}
+
+impl<R: Reader<Offset = usize>> NameBucketIter<R> {
+    pub closed spec fn v_reader(&self) -> RView { self.reader.rv() }
+    pub closed spec fn v_index(&self) -> u32 { self.name_table_index.0 }
+    pub closed spec fn v_name_count(&self) -> u32 { self.name_count }
+    pub closed spec fn v_bucket_index(&self) -> u32 { self.bucket_index }
+    pub closed spec fn v_bucket_count(&self) -> u32 { self.bucket_count }
+    /// a hash is left for every name not yet visited, and the modulus is not zero
+    pub open spec fn wf(&self) -> bool {
+        self.v_bucket_count() != 0 && self.v_index() <= self.v_name_count() && self.v_reader().len >= 4 * (self.v_name_count() - self.v_index())
+    }
+    pub open spec fn same_chain(&self, o: &Self) -> bool {
+        self.v_name_count() == o.v_name_count() && self.v_bucket_index() == o.v_bucket_index() && self.v_bucket_count() == o.v_bucket_count()
+    }
+}
+
+impl<R: Reader<Offset = usize>> NameHashIter<R> {
+    pub closed spec fn v_hash(&self) -> u32 { self.hash }
+    pub closed spec fn has_bucket(&self) -> bool { self.bucket_iter is Some }
+    pub closed spec fn bucket(&self) -> NameBucketIter<R> { self.bucket_iter->Some_0 }
+}
+'''
+
+
+def populate_names(ctx, sk):
+    nm = Source('read/names.rs', ctx)
+    sk.mods['read']['uses'] += '\npub use self::names::*;'
+    sk.module('read::names', '''use crate::common::Format;
+use crate::read::{Error, Reader, ReaderOffset, Result};
+use crate::read::reader_clone;
+use crate::vspec::*;''')
+    sk.add('read::names', nm.item(r'^pub struct NameTableIndex\(').clean())
+    ni = nm.item(r'^pub struct NameIndex<R: Reader>', label='NameIndex')
+    # R-FIELDS: the abbreviation table (Vec-backed) is not touched by any extracted function
+    ni.custom('R-FIELDS', 'abbreviations: NameAbbreviations,', '')
+    sk.add('read::names', ni.clean(rejrec=['R']))
+    sk.add('read::names', nm.item(r'^pub struct NameBucketIter<R: Reader>', label='NameBucketIter').clean(rejrec=['R']))
+    sk.add('read::names', nm.item(r'^pub struct NameHashIter<R: Reader>', label='NameHashIter').clean(rejrec=['R']))
+    sk.add('read::names', NAMES_GHOST, label='names_ghost')
+
+    bi = nm.item(r'^impl<R: Reader> NameBucketIter<R>', label='NameBucketIter')
+    bi.custom('R-CLONE', 'name_index.bucket_data.clone()', 'reader_clone(&name_index.bucket_data)')
+    bi.custom('R-CLONE', 'name_index.hash_table_data.clone()', 'reader_clone(&name_index.hash_table_data)')
+    bi.clean().own(OWN)
+    ST = 'name_index.v_buckets().u(4 * bucket_index, 4)'
+    bi.splice('new', ret='res', ensures=[
+        f'[C17:names-bucket-start] res matches Ok(Some(it)) ==> ({{ let st = {ST}; st != 0 && it.v_index() == st - 1 && adv(name_index.v_hashes(), it.v_reader(), (4 * (st - 1)) as nat) '
+        '&& it.v_name_count() == name_index.v_name_count() && it.v_bucket_index() == bucket_index && it.v_bucket_count() == name_index.v_bucket_count() })',
+        f'[C17:names-bucket-empty] res matches Ok(None) ==> {ST} == 0',
+        f'[C17:names-bucket-range] res is Err <==> (name_index.v_buckets().len < 4 * bucket_index + 4 || ({ST} != 0 && name_index.v_hashes().len < 4 * ({ST} - 1)))',
+        '[C01:no-div-by-zero] name_index.wf() ==> (res matches Ok(Some(it)) ==> it.wf())',
+        '[C01:no-div-by-zero] name_index.wf() && name_index.v_bucket_count() == 0 ==> res is Err',
+    ])
+    O, F = 'old(self)', 'final(self)'
+    bi.splice('next', ret='res', requires=[f'[C01:no-div-by-zero] {O}.wf()'], ensures=[
+        '[C01:no-error] res is Ok',
+        f'{F}.wf() && {F}.same_chain({O})',
+        f'[C17:names-bucket-end][C01:iter-finish] {O}.v_index() >= {O}.v_name_count() ==> (res matches Ok(None)) && {F}.v_index() == {O}.v_index() && {F}.v_reader() == {O}.v_reader()',
+        f'[C17:names-bucket-next] {O}.v_index() < {O}.v_name_count() ==> ({{ let h = {O}.v_reader().u(0, 4); {F}.v_index() == {O}.v_index() + 1 && adv({O}.v_reader(), {F}.v_reader(), 4) '
+        f'&& (h % ({O}.v_bucket_count() as nat) == {O}.v_bucket_index() ==> (res matches Ok(Some(p)) && p.0.0 == {O}.v_index() && p.1 as nat == h)) '
+        f'&& (h % ({O}.v_bucket_count() as nat) != {O}.v_bucket_index() ==> res matches Ok(None)) }})',
+        f'[C01:iter-progress] res matches Ok(Some(_)) ==> {F}.v_index() == {O}.v_index() + 1',
+    ], canary=True)
+    sk.add('read::names', bi)
+
+    hi = nm.item(r'^impl<R: Reader> NameHashIter<R>', label='NameHashIter').clean().own(OWN)
+    hi.splice('new', ret='res', ensures=[
+        '[C17:names-hash-bucket] res matches Ok(it) ==> it.v_hash() == hash && (it.has_bucket() ==> name_index.v_bucket_count() != 0 ==> '
+        'it.bucket().v_bucket_index() == hash % name_index.v_bucket_count() && it.bucket().v_bucket_count() == name_index.v_bucket_count())',
+        '[C01:no-div-by-zero] name_index.wf() ==> (res matches Ok(it) ==> (it.has_bucket() ==> it.bucket().wf()))',
+        '[C01:no-div-by-zero] name_index.wf() && name_index.v_bucket_count() == 0 ==> res is Err',
+    ])
+    hi.splice('next', ret='res', requires=[f'[C01:no-div-by-zero] {O}.has_bucket() ==> {O}.bucket().wf()'], ensures=[
+        '[C01:no-error] res is Ok',
+        f'[C01:iter-finish] !{O}.has_bucket() ==> res matches Ok(None)',
+        f'{F}.has_bucket() == {O}.has_bucket() && {F}.v_hash() == {O}.v_hash() && ({F}.has_bucket() ==> {F}.bucket().wf() && {F}.bucket().same_chain(&{O}.bucket()))',
+        f'[C17:names-hash-next] res matches Ok(Some(i)) ==> ({{ let b0 = {O}.bucket(); {O}.has_bucket() && b0.v_index() <= i.0 < b0.v_name_count() '
+        f'&& b0.v_reader().u(4 * (i.0 - b0.v_index()), 4) == {O}.v_hash() && {O}.v_hash() % b0.v_bucket_count() == b0.v_bucket_index() && {F}.bucket().v_index() == i.0 + 1 }})',
+        f'[C01:iter-progress] res matches Ok(Some(_)) ==> {F}.bucket().v_index() > {O}.bucket().v_index()',
+    ], attrs='#[verifier::loop_isolation(false)]',
+        loops={0: f'invariant bucket_iter.wf(), bucket_iter.same_chain(&{O}.bucket()), {O}.has_bucket(), self.hash == {O}.v_hash(), {O}.bucket().v_index() <= bucket_iter.v_index(), '
+                 f'adv({O}.bucket().v_reader(), bucket_iter.v_reader(), (4 * (bucket_iter.v_index() - {O}.bucket().v_index())) as nat), '
+                 'decreases bucket_iter.v_name_count() - bucket_iter.v_index()'}, canary=True,
+        before=[('return Ok(Some(name_table_index));', 'proof { assert(self.has_bucket()); assert(self.bucket() == *bucket_iter); assert(self.v_hash() == old(self).v_hash()); }')])
+    sk.add('read::names', hi)
+
 
 def widen_reader_address(ctx, sk):
     """R-VIS (logged; same rule as lists.py): `pub(crate) trait ReaderAddress` -> `pub trait ReaderAddress`.
@@ -561,6 +724,7 @@ def populate(ctx, sk):
     populate_index(ctx, sk)
     populate_aranges(ctx, sk)
     populate_lookup(ctx, sk)
+    populate_names(ctx, sk)
     return sk
 
 
